@@ -33,11 +33,12 @@ PROP = {'rule': 'rapid-generated cases. takeCPUs: (topology sockets1-2 x numa1-2
                  'one cpu of NUMA amount per handed-back CPU on the NUMA nodes that pod was charged on'],
  'units': [{'name': 'numa',
             'pkg': 'pkg/scheduler/plugins/nodenumaresource',
-            'files': ['C06/c06_test.go', 'C06/c06_concurrent_test.go'],
+            'files': ['C06/c06_test.go', 'C06/c06_concurrent_test.go', 'C06/c06_plugin_test.go'],
             'tests': [{'run': 'TestVerifC06TakeCPUs', 'quick': 20000, 'thorough': 150000},
                       {'run': 'TestVerifC06NUMASplit', 'quick': 20000, 'thorough': 200000},
                       {'run': 'TestVerifC06ManagerHistory', 'quick': 3000, 'thorough': 25000, 'steps': 25},
                       {'run': 'TestVerifC06ManagerHistoryExt', 'quick': 3000, 'thorough': 25000, 'steps': 25},
+                      {'run': 'TestVerifC06PluginHistory', 'quick': 1500, 'thorough': 8000, 'steps': 20},
                       {'run': 'TestVerifC06ConcurrentFirstTouch', 'quick': 150, 'thorough': 300, 'shards': 2, 'shrinktime': '0s'},
                       {'run': 'FuzzVerifC06NUMASplit', 'fuzz': True, 'rapid': False, 'thorough_only': True, 'fuzztime': '40s'},
                       {'run': 'FuzzVerifC06TakeCPUs', 'fuzz': True, 'rapid': False, 'thorough_only': True, 'fuzztime': '40s'}]}],
